@@ -267,8 +267,18 @@ func (in *interp) holds(c Cond) bool {
 func (in *interp) nodes(ns []Node) ([]*xm, string) {
 	var out []*xm
 	var text strings.Builder
-	for _, n := range ns {
+	for k, n := range ns {
 		switch {
+		case n.Set != nil:
+			// Binds a name in the current instance scope; being the last node of the body, nothing
+			// reads it before the instance ends, and the reference model never sees it afterwards.
+			if k != len(ns)-1 {
+				panic("c04 generator: a setter must be the last node of its body")
+			}
+			in.stat("instance-local-binding")
+			if n.Set.If != nil && in.holds(*n.Set.If) {
+				out = append(out, &xm{id: n.Set.ID, why: "wrapper of the setter of " + n.Set.Name + ", " + in.scopeNote()})
+			}
 		case n.Loop != nil:
 			ms, t := in.loop(n.Loop)
 			out = append(out, ms...)
